@@ -11,6 +11,7 @@ import WzVerif.Lemmas.Urlencode
 import WzVerif.Lemmas.FormOptions
 import WzVerif.Lemmas.Multipart
 import WzVerif.Lemmas.MultipartCodec
+import WzVerif.Lemmas.MultipartChunks
 namespace Wz.Props.C02
 open Wz
 
@@ -221,14 +222,25 @@ example :
       ⟨false, some "q\"q".toList, none, [], []⟩ := by
   decide +kernel
 
+/-- **decode_encode, every chunking.** The same, however the encoded body reaches the decoder: for
+every list of chunks whose concatenation is the encoder's output, decoding chunk by chunk returns
+exactly the encoded parts (together with C01: the result does not depend on the chunking). -/
+theorem decode_encode_chunked {bnd : Bytes} (hb : Multipart.BoundaryOk bnd) (parts : List Multipart.Part)
+    (hv : ∀ p ∈ parts, Multipart.ValidPart bnd p) (chunks : List Bytes) :
+    ∃ body, Multipart.encodeAll bnd parts = .ok body ∧
+      (chunks.flatten = body →
+        (Multipart.decodeChunks bnd none none chunks).err = none ∧
+        Multipart.partsOf (Multipart.decodeChunks bnd none none chunks).events =
+          parts.map Multipart.decodedPart) :=
+  ⟨Multipart.encBody bnd parts, Multipart.encodeAll_eq parts hv,
+    fun hj => Multipart.decode_chunks_full_lemma hb parts hv chunks hj⟩
+
 /-
--- OPEN: decode_encode for every chunking of the body (together with C01's
--- `decode_chunk_independent`, which is OPEN): proved here for the single-shot decode
--- (`decode_encode`) and, for every chunking, for the payload phase of each part
--- (`decode_encode_data`, `decode_encode_data_empty`). The statement over arbitrary Data chunkings of
--- a part is false (`decode_encode_events_full_false`, finding F02a). The whole statement is
--- exercised on the real code, with chunking, by streams `encoder-events`, `client-roundtrip` and by
--- C01's `decoder-splits` / `formparser-bufsize`.
+The statement over arbitrary Data chunkings of a part on the *encoder* side is false
+(`decode_encode_events_full_false`, finding F02a); `decode_encode` / `decode_encode_chunked` are for
+the event sequence `stream_encode_multipart` sends (one Data event per part). The composition with
+`parse_options_header`, `_parse_headers`, FileStorage construction, charset decoding of field values
+and the test client is exercised on the real code by streams `encoder-events` and `client-roundtrip`.
 -/
 
 end Wz.Props.C02
